@@ -242,6 +242,11 @@ def oracle_c09(res, r, tier):
             variants.append(src + '@%s\ndef zz_deco(long_name):\n    return long_name\n' % bare)
             variants.append(src + 'def zz_ann(long_name: %s = None) -> %s:\n    return long_name\n' % (bare, bare))
             variants.append(src + 'class ZZB(%s, metaclass=%s):\n    pass\n' % (bare, bare))
+        if bare.isidentifier():
+            # the module binds the trigger's name itself, the reference is still the builtin
+            variants.append('%s = %s\n' % (bare, bare) + src + 'def zz_own(long_name):\n    other_name = long_name\n    return %s, other_name\n' % call)
+            variants.append(src + 'def zz_glob(long_name):\n    global %s\n    other_name = long_name\n    return %s, other_name\n' % (bare, call))
+            variants.append('try:\n    %s\nexcept NameError:\n    %s = None\n' % (bare, bare) + src + 'def zz_try(long_name):\n    other_name = long_name\n    return %s, other_name\n' % call)
         variants.append(src + 'def zz_f(long_name):\n    return f"{%s}{long_name}"\n' % call)
         variants.append(src + 'def zz_c(long_name):\n    return [item for item in long_name if %s]\n' % call)
         variants.append(src + 'def zz_w(long_name):\n    if (found := %s):\n        return found, long_name\n' % call)
